@@ -303,6 +303,7 @@ type w2Shape struct {
 	Dim    int
 	Face   int
 	Step   int
+	Inv    bool // complement of the pieces: contains the rest of its face and the other faces
 	Pcs    []w2Piece
 	Depths []int
 	Loops  [][][2]int
@@ -453,7 +454,7 @@ func w2Realise(o *Out, c *w2Case, k int, kind string) *w2Obj {
 	case "Polygon", "PolygonNested":
 		loops := make([]*s2.Loop, len(ob.pts))
 		for n, p := range ob.pts {
-			if kind == "PolygonNested" && sh.Depths[n]%2 == 1 {
+			if kind == "PolygonNested" && sh.Depths[n]%2 == 1 && !sh.Inv {
 				loops[n] = s2.LoopFromPoints(w2Rev(p)) // all loops counter-clockwise
 			} else {
 				loops[n] = s2.LoopFromPoints(cp(p))
@@ -585,8 +586,10 @@ func w2CheckIndex(o *Out, c *w2Case, tag string, idx *s2.ShapeIndex, objs []*w2O
 			sh := ob.sh
 			want, predicted := false, true
 			switch {
-			case sh.Dim != 2 || sh.Face != face:
+			case sh.Dim != 2:
 				want = false
+			case sh.Face != face:
+				want = sh.Inv // a cell centre is interior to its face
 			case level >= c.G:
 				want = sh.inCell(c.G, level, ci, cj)
 			default:
@@ -669,6 +672,9 @@ func w2Describe(c *w2Case) string {
 		}
 		switch sh.Dim {
 		case 2:
+			if sh.Inv {
+				s += "complement-of-"
+			}
 			s += fmt.Sprintf("poly(face %d step %d %v)", sh.Face, sh.Step, sh.Pcs)
 		case 1:
 			s += fmt.Sprintf("line(face %d %v)", sh.Face, sh.Loops[0])
@@ -698,13 +704,14 @@ func w2ExpectAt(c *w2Case, ob *w2Obj, face, plevel, pi, pj int, p s2.Point, mode
 	}
 	if plevel >= 0 {
 		if sh.Face != face {
-			return w2Expect{false, true} // a probe is interior to its face; regions are confined to theirs
+			// a probe is interior to its face; regions are confined to theirs, complements contain the others
+			return w2Expect{sh.Inv, true}
 		}
 		return w2Expect{sh.inCell(c.G, plevel, pi, pj), true}
 	}
 	if sh.Face != face {
 		if pi > 0 && pi < S && pj > 0 && pj < S {
-			return w2Expect{false, true}
+			return w2Expect{sh.Inv, true}
 		}
 		return w2Expect{false, false}
 	}
